@@ -134,8 +134,18 @@ def unit_numpy_export(sess, ctx):
         d, sw, ch = Opq(tag="data"), Int("sw"), Int("ch")
         me = eng.st.new_obj("AudioRegion", {"data": d, "sample_width": sw, "channels": ch, "sampling_rate": Int("sr")})
         fn = ["auditok.core.AudioRegion.numpy", "auditok.core.AudioRegion.__array__"][eng.choose(2, None, "numpy/__array__")]
-        eng.run_function(ctx.fi(fn), [], {}, me)
-        eng.prove("C18:numpy-export-is-to_array(data,width,channels)", calls == [((d, sw, ch), {})], props=("C18",))
+        eng.st.ghost["written"] = set()
+        eng.st.ghost.setdefault("in_init", {})[me.oid] = False
+        arr = Opq(tag="array")
+        eng.contracts[QS + "to_array"] = lambda e, f, sv, a, k: calls.append((tuple(a), dict(k))) or arr
+        try:
+            res = eng.run_function(ctx.fi(fn), [], {}, me)
+        except PyRaise as e:
+            eng.prove("C18:numpy-export-raises-%s" % e.exc, False, props=("C18",))
+            return None
+        eng.prove("C18:numpy-export-is-to_array(data,width,channels)", calls == [((d, sw, ch), {})] and res is arr, props=("C18",))
+        eng.prove("C18:numpy-export-keeps-no-state-in-the-region(a-fresh-array-every-time)",
+                  not any(o == me.oid for (o, _) in eng.st.ghost.get("written", set())), props=("C18", "C17"))
         return None
     sess.run_unit(u, eng, run_)
     return u
